@@ -67,7 +67,7 @@ PROPS["C01"] = {
     "bounds": "engine M: BUFFER_SIZE 2 (quick) / 4 (thorough); 3-4 threads of 1-2 operations each + a drain thread that runs after all others; pre-filled 0..N events; sequence origin any u32; payloads distinct symbolic u32; step bound = sum of the longest acyclic paths + slack (stated per query)",
     "outside": "more than 4 threads / 2 operations per thread; BUFFER_SIZE > 4; orderings weaker than SC; the crossbeam channel; channel-level wake-ups (see C04)",
     "assumptions": [_M_NOTE, "exactly-once oracle: every value received is an accepted (or pre-filled) one, none twice, none lost after the final drain; a panic or an out-of-bounds / dangling access anywhere also counts"],
-    "m": [M("c01_atomic_1p2c_n2_k2"), M("c01_atomic_1p2c_n2_k0"), M("c01_atomic_2p1c_n2_k1"), M("c01_fullsync_2p1c_n2_k1"), 
+    "m": [M("c01_atomic_1p2c_n2_k2"), M("c01_atomic_1p2c_n2_k0"), M("c01_fullsync_1p1c_full_n2"), M("c01_atomic_1p1c_full_n2"), M("c01_atomic_2p1c_n2_k1"), M("c01_fullsync_2p1c_n2_k1"), 
           M("c01_zc_atomic_1p1c_n2_k1", "thorough"), M("c01_zc_fullsync_1p1c_n2_k1", "thorough"), M("c01_atomic_2p1c_n2_k0", "thorough"), M("c01_atomic_2p2c_n2_k1", "thorough"), M("c01_atomic_2p2c_n4_k3", "thorough"), M("c01_atomic_3p1c_n2_k1", "thorough"),
           M("c01_fullsync_2p2c_n2_k1", "thorough"), M("c01_zc_atomic_2p1c_n2_k1", "thorough"), M("c01_zc_fullsync_2p1c_n2_k1", "thorough")],
     "k": [
@@ -90,7 +90,7 @@ PROPS["C02"] = {
     "bounds": "engine M: linearizability by symbolic enumeration of all program-order-respecting total orders (<= 6 operations incl. the drain), real-time order from the first/last visible step of every call; BUFFER_SIZE 2 (quick) / 4 (thorough); origin any u32",
     "outside": "histories with more than 6 operations; BUFFER_SIZE > 4; orderings weaker than SC; crossbeam channel (sequential K scripts only)",
     "assumptions": [_M_NOTE, "capacity rule as in the statement: a rejected send is explained when (events in the queue) + (calls in progress during the send) >= BUFFER_SIZE at its linearization point; an empty answer needs an empty queue at its linearization point"],
-    "m": [M("c02_atomic_lin_1p2c_n2_k2"), M("c02_atomic_lin_2p1c_n2_k1"), M("c02_atomic_lin_pp_cc_n2_k1", "thorough"), M("c02_fullsync_lin_2p1c_n2_k1"), M("c02_zc_atomic_lin_p_cc_n2_k1", "thorough"),
+    "m": [M("c02_atomic_lin_c_pc_n2_k1"), M("c02_fullsync_lin_1p2c_n2_k1"), M("c02_atomic_lin_1p2c_n2_k2"), M("c02_atomic_lin_2p1c_n2_k1"), M("c02_atomic_lin_pp_cc_n2_k1", "thorough"), M("c02_fullsync_lin_2p1c_n2_k1"), M("c02_zc_atomic_lin_p_cc_n2_k1", "thorough"),
           M("c02_atomic_lin_2p2c_n2_k1", "thorough"), M("c02_atomic_lin_2p2c_n2_k2", "thorough"), M("c02_atomic_lin_2p1c_n4_k3", "thorough"), M("c02_fullsync_lin_2p2c_n2_k1", "thorough"),
           M("c02_zc_atomic_lin_pp_cc_n2_k1", "thorough"), M("c02_zc_fullsync_lin_p_cc_n2_k1", "thorough")],
     "k": [],
